@@ -27,6 +27,7 @@ def Ys.unres : Ys → Ys
   | .sub y => .sub (Ys.unres y)
   | .pval y => .pval (Ys.unres y)
   | .ofut b n => .ofut b n
+  | .gco y => .gco (Ys.unres y)
 def YsL.unres : YsL → YsL
   | .nil => .nil
   | .cons y l => .cons (Ys.unres y) (YsL.unres l)
@@ -45,6 +46,7 @@ theorem Ys.unres_labelsR : ∀ y : Ys, Ys.labelsR (Ys.unres y) = Ys.labelsR y
   | .sub _ => rfl
   | .pval y => by simp [Ys.unres, Ys.labelsR, Ys.unres_labelsR y]
   | .ofut _ _ => rfl
+  | .gco y => by simp [Ys.unres, Ys.labelsR, Ys.unres_labelsR y]
 theorem YsL.unres_labelsR : ∀ l : YsL, YsL.labelsR (YsL.unres l) = YsL.labelsR l
   | .nil => rfl
   | .cons y l => by simp [YsL.unres, YsL.labelsR, Ys.unres_labelsR y, YsL.unres_labelsR l]
@@ -63,6 +65,7 @@ theorem Ys.unres_labelsA : ∀ y : Ys, Ys.labelsA (Ys.unres y) = Ys.labelsA y
   | .sub y => by simp [Ys.unres, Ys.labelsA, Ys.unres_labelsA y]
   | .pval _ => rfl
   | .ofut _ _ => rfl
+  | .gco _ => rfl
 theorem YsL.unres_labelsA : ∀ l : YsL, YsL.labelsA (YsL.unres l) = YsL.labelsA l
   | .nil => rfl
   | .cons y l => by simp [YsL.unres, YsL.labelsA, Ys.unres_labelsA y, YsL.unres_labelsA l]
@@ -98,6 +101,7 @@ theorem ysR_unres : ∀ (y : Ys) (s : St), ysR (Ys.unres y) s = ysR y s
   | .sub _, _ => rfl
   | .pval y, s => by simp [Ys.unres, ysR, ysR_unres y]
   | .ofut _ _, _ => rfl
+  | .gco y, s => by simp [Ys.unres, ysR, ysR_unres y]
 theorem yslR_unres : ∀ (l : YsL) (s : St), yslR (YsL.unres l) s = yslR l s
   | .nil, _ => rfl
   | .cons y l, s => by simp [YsL.unres, yslR, ysR_unres y, yslR_unres l]
@@ -133,6 +137,7 @@ theorem resolveA_unres : ∀ (y : Ys) (s : St), resolveA (Ys.unres y) s = resolv
   | .sub y, s => by simp [Ys.unres, resolveA, resolveA_unres y]
   | .pval y, s => by simp [Ys.unres, resolveA, resolveA_unres y]
   | .ofut _ _, _ => rfl
+  | .gco y, s => by simp [Ys.unres, resolveA, resolveA_unres y]
 theorem gatherA_unres : ∀ (l : YsL) (s : St), gatherA (YsL.unres l) s = gatherA l s
   | .nil, _ => rfl
   | .cons y l, s => by simp [YsL.unres, gatherA, resolveA_unres y, gatherA_unres l]
